@@ -86,6 +86,11 @@ type Flow struct {
 	Hops  []HopPlan `json:"hops,omitempty"`
 	// ProbeLoss lists TTLs whose probe is lost before reaching any router (no replies at all).
 	ProbeLoss []int `json:"probeLoss,omitempty"`
+	// TargetByArrival: the SACK target processes the probes in the order in which its answers are
+	// due (forward-path reordering: a probe with a long delay is overtaken by later probes), so the
+	// SACK blocks of an acknowledgement list what the target had received at that instant. Default:
+	// the target processes probes in the order they were sent.
+	TargetByArrival bool `json:"targetByArrival,omitempty"`
 }
 
 // HopPlan is what happens when the probe with the given TTL is handed to the wire.
